@@ -462,6 +462,10 @@ static void replay(const std::string& spec) {
     char ax[8]; long long other, v0, v1;
     if (sscanf(spec.c_str(), "%3[a-z]:%lld:%lld:%lld", ax, &other, &v0, &v1) != 4) { fprintf(stderr, "bad spec\n"); exit(2); }
     Walker w(strcmp(ax, "lat") == 0 ? LAT : LON, static_cast<int32_t>(other));
+    // a short run-up of the neighbouring values in sweep order first: a failure that depends on the calls made just before (state
+    // kept between calls by the code under test) reproduces only with them
+    const long long lo = strcmp(ax, "lat") == 0 ? -900000000LL : -1800000000LL;
+    for (long long k = v0 - 3; k < v0; ++k) if (k >= lo) w.step(k);
     w.step(v0);
     if (v1 != v0) w.step(v1);
 }
